@@ -5,9 +5,68 @@ from engine import runner
 from checks import corpus, asserts
 
 
+def conc_family(name, existing, mk_reqs, targets):
+    """generations under concurrency: k accepted writes move a generation
+    forward by at least k, and no schedule moves one backwards"""
+    import z3
+    from engine import app
+    from engine.runner import Family, obligation, finish
+    from engine.scenario import U, CONS, _by_key, _merged
+    from engine.symdb import And, Or, zbool
+    from engine.symex import to_z3
+    from checks import conc, c06
+
+    wf = c06.world_fn(existing)
+
+    def path(ctx):
+        app.setup()
+        reqs = mk_reqs()
+        pre, results, final, sched, writes = conc.run_concurrent(ctx, wf, reqs)
+        ok = [i for i, r in enumerate(results) if r.status < 400]
+        ca, cb = _by_key(pre, 'consumers'), _by_key(final, 'consumers')
+        pa, pb = _by_key(pre, 'resource_providers'), \
+            _by_key(final, 'resource_providers')
+        k = (CONS(1),)
+        if k in ca and k in cb:
+            both = And(Or(*[r.present for r in ca[k]]),
+                       Or(*[r.present for r in cb[k]]))
+            ga = to_z3(_merged(ca[k], 'generation')[1])
+            gb = to_z3(_merged(cb[k], 'generation')[1])
+            obligation(ctx, 'generation-never-decreases',
+                       z3.And(zbool(both), gb < ga),
+                       'consumer generation decreased under concurrency')
+            obligation(ctx, 'write-bumps-consumer-generation',
+                       z3.And(zbool(both), gb < ga + len(ok)),
+                       '%d accepted writes moved the consumer generation '
+                       'forward by less than %d' % (len(ok), len(ok)),
+                       sig='k=%d' % len(ok))
+        for p in (1, 2):
+            kk = (U(p),)
+            ga = to_z3(_merged(pa[kk], 'generation')[1])
+            gb = to_z3(_merged(pb[kk], 'generation')[1])
+            n = sum(1 for i in ok if targets[i] == p)
+            obligation(ctx, 'placement-bumps-provider-generation',
+                       gb < ga + n,
+                       '%d accepted placements on provider %d moved its '
+                       'generation forward by less than %d' % (n, p, n),
+                       sig='p%d k=%d' % (p, n))
+        return finish(ctx, ','.join(str(r.status) for r in results))
+    return Family('conc/' + name, path, bounds=dict(
+        schedules='every interleaving at transaction granularity'))
+
+
 def families(tier):
-    return [corpus.make_family(s, [asserts.generations, asserts.no_5xx])
+    from checks import c06
+    fams = [corpus.make_family(s, [asserts.generations, asserts.no_5xx])
             for s in corpus.shapes(tier)]
+    fams.append(conc_family('existing/put+put', True, lambda: [
+        c06.put(1, 1, 'int'), c06.put(2, 2, 'int')], {0: 1, 1: 2}))
+    if tier == 'thorough':
+        fams.append(conc_family('existing/put+post', True, lambda: [
+            c06.put(1, 1, 'int'), c06.post(2, 1, 'int')], {0: 1, 1: 1}))
+        fams.append(conc_family('new/put+put', False, lambda: [
+            c06.put(1, 1, 'null'), c06.put(2, 2, 'null')], {0: 1, 1: 2}))
+    return fams
 
 
 if __name__ == '__main__':
